@@ -296,7 +296,7 @@ func runFrames(r *SeqRun) {
 	id := 0
 	nheads := 2
 	if thorough {
-		nheads = 30
+		nheads = 120
 	}
 	for hi := 0; hi < nheads; hi++ {
 		for cfg := 0; cfg < 4; cfg++ {
